@@ -39,7 +39,9 @@ var (
 	wideTags = []vtt.Tag{tagB, tagI, tagU, tagRed, tagAB, tagLang, tagHy, tagLang2, tagC, tagBLoud, tagUS, tagDig, tagRuby, tagRt, tagLang3}
 	// coreW keeps 8 tags (cost) but swaps in the wide ones that interact with the writer's neighbour diff: same name, different classes / none
 	wTags     = []vtt.Tag{tagB, tagI, tagRed, tagAB, tagLang, tagC, tagBLoud, tagRuby}
-	wideTexts = append(append([]string{}, allTexts...), "42", "\u200f\u05e9\u05dc\u05d5\u05dd", "a\u200eb", "&gt;", "&#38;", "NOTE x", "STYLES", "Region: n")
+	wideTexts = append(append([]string{}, allTexts...), "42", "\u200f\u05e9\u05dc\u05d5\u05dd", "a\u200eb", "&gt;", "&#38;", "NOTE x", "STYLES", "Region: n",
+		// markup look-alikes as literal text (written escaped): an inline timestamp, tags, a voice span, a reference inside a reference
+		"seek <00:00:05.000> now", "<b>x</b>", "<v Bob>y", "</c>", "&amp;lt;")
 	// ms digit boundaries (.010 .100), 4-digit hours
 	wideStarts = append(append([]int64{}, allStarts...), 10, 100, 3600000000, 35999999000)
 	longVoice  = strings.Repeat("Nebuchadnezzar ", 20) + "II" // 302 bytes
